@@ -516,6 +516,18 @@ class LazyAtoms:
     def sym_to_tuple(self, interp):
         return self.concrete(interp)
 
+    def sym_candidates(self, interp):
+        """the positions as a finite candidate collection (for all(...) / any(...) over the atoms): position i counts iff
+        i < len(class) - no decision on the class"""
+        from .values import FSet
+
+        if not isinstance(self.owner.fields.get("atoms"), LazyAtoms):
+            return FSet(list(self.owner.fields["atoms"]))
+        c = DescrS.dcls(self.t)
+        ln = z3.If(z3.Or(c == CLS["Tetrahedral"], c == CLS["SquarePlanar"]), 5, z3.If(c == CLS["Octahedral"], 7, 6))
+        n = self._min_len()
+        return FSet(list(self.slots(7)), [True if i < n else (i < ln) for i in range(7)])
+
     def sym_eq(self, other):
         raise OutOfSubset("== on undecided descriptor atoms")
 
@@ -858,6 +870,9 @@ class SetRef:
         return z3.Select(heap_of(interp).mem[self.t.name], self.ref)
 
     def sym_contains(self, interp, x):
+        if isinstance(x, OI) and self.t.esort == z3.IntSort():
+            # an optional int: None is never a member (no fork on the None-ness)
+            return And_(Not_(x.isnone), heap_of(interp).s_has(self.t, self.ref, _int(x)))
         e = self.e(interp, x)
         if e is None:
             return False
